@@ -42,6 +42,7 @@ sim::Plan generate(const std::string&, uint64_t subseed, const sim::Tier& tier) 
     bool faults_buffer = rng.chance(2, 3), faults_stream = rng.chance(2, 3), faults_alloc = rng.chance(1, 2);  // swarm: enabled fault kinds
     for (int i = 0; i < nops; ++i) {
       long k = rng.below(20);
+      if (k < 7 && rng.chance(1, 4)) p.add(3, "st_order", {(long)rng.below(3)});
       if (k < 7) p.add(0, "st_mut", {(long)rng.below(3), (long)rng.below(5), (long)rng.below(1 << n), (long)rng.below(1 << 16)});
       else if (k < 12) {  // copier: a lifetime op, then one participant is mutated or destroyed and the other audited (independence)
         static const char* ops[] = {"st_copy_ctor", "st_copy_assign", "st_move_ctor", "st_move_assign", "st_swap", "st_copy_assign"};
@@ -54,6 +55,7 @@ sim::Plan generate(const std::string&, uint64_t subseed, const sim::Tier& tier) 
       else if (k < 16) p.add(2, "st_ser", {(long)rng.below(3), faults_buffer ? (long)rng.below(4) : 0, (long)rng.below(64), (long)rng.below(1 << 20)});
       else if (k < 18) p.add(2, "st_text", {(long)rng.below(3), (long)rng.below(1 << 20), faults_stream ? (long)rng.below(10) : (long)rng.below(2)});
       else if (k < 19 && faults_alloc) p.add(2, "st_allocfail", {(long)rng.below(3), (long)rng.below(3), (long)rng.below(200), (long)rng.below(2)});
+      else if (rng.chance(1, 2)) p.add(3, "st_order", {(long)rng.below(3)});
       else p.add(3, "st_audit", {(long)rng.below(3), (long)rng.below(1 << 20)});
     }
     for (int s = 0; s < 3; ++s) p.add(3, "st_audit", {(long)s, (long)rng.below(1 << 20)});
